@@ -4,6 +4,7 @@ import (
 	"encoding/json"
 	"fmt"
 	"reflect"
+	"slices"
 	"time"
 )
 
@@ -24,10 +25,12 @@ func (n *Namespace) Use(f NspMiddlewareFunc) {
 }
 
 func (n *Namespace) runMiddlewares(socket *serverSocket, handshake *Handshake) error {
+	// Don't hold the lock while calling the middlewares: a middleware may call Use.
 	n.middlewareFuncsMu.RLock()
-	defer n.middlewareFuncsMu.RUnlock()
+	funcs := slices.Clone(n.middlewareFuncs)
+	n.middlewareFuncsMu.RUnlock()
 
-	for _, f := range n.middlewareFuncs {
+	for _, f := range funcs {
 		err := f(socket, handshake)
 		if err != nil {
 			return &middlewareError{v: err}
@@ -71,10 +74,12 @@ func (s *serverSocket) checkMiddlewareFunc(rv reflect.Value) error {
 }
 
 func (s *serverSocket) callMiddlewares(values []reflect.Value) error {
+	// Don't hold the lock while calling the middlewares: a middleware may call Use.
 	s.middlewareFuncsMu.RLock()
-	defer s.middlewareFuncsMu.RUnlock()
+	funcs := slices.Clone(s.middlewareFuncs)
+	s.middlewareFuncsMu.RUnlock()
 
-	for _, f := range s.middlewareFuncs {
+	for _, f := range funcs {
 		err := s.callMiddlewareFunc(f, values)
 		if err != nil {
 			return err
